@@ -1,1 +1,322 @@
-/- C05 — property theorems (stub: the slice is not built yet). -/
+import GB.C05.Witness
+/-
+  C05 — reflection resolution reproduces the target's contract for any conformant server.
+  Property theorems only; helper lemmas live in Proofs.lean, vocabulary in Spec.lean.
+
+  Quantification: every theorem below holds for EVERY answering policy `pol : History → Request →
+  Answer` (an arbitrary function of the whole conversation so far) and EVERY schedule `sched`
+  (the order Go's map iteration gives the FileByFilename requests of one round), constrained only
+  by the hypotheses written in the statement.  The model is the code after the D5 fix
+  (`dedupFiles` records the names it has seen); `C05_unfixed_dedup_fails` is the kernel-checked
+  witness that the code before the fix violated `C05_complete_*`.
+-/
+set_option linter.unusedVariables false
+open GB GB.C05
+
+/-! ## ListServices filter -/
+
+/-- The names resolved are exactly the listed valid, non-ignored (hence non-administrative) ones. -/
+theorem C05_listing (cfg : Cfg) (raw : List Name) (n : Name) :
+    n ∈ listServiceNames cfg raw ↔ wanted cfg raw n :=
+  ⟨wanted_of_mem_names, mem_names_of_wanted⟩
+
+/-- … each of them once, however often the target lists it. -/
+theorem C05_listing_nodup (cfg : Cfg) (raw : List Name) : (listServiceNames cfg raw).Nodup :=
+  nodup_listFilter cfg raw []
+
+/-- Administrative gRPC services ("grpc." prefix) are never resolved, whatever IgnorePrefixes says. -/
+theorem C05_listing_no_admin (rawLimit : Int) (only : Bool) (ign : List Bytes) (raw : List Name) (n : Name)
+    (hn : n ∈ listServiceNames (mkCfg rawLimit only ign) raw) : hasPrefix n grpcPrefix = false := by
+  have h := (wanted_of_mem_names hn).2.2
+  unfold ignored mkCfg at h
+  simp only [List.any_append, List.any_cons, List.any_nil, Bool.or_false, Bool.or_eq_false_iff] at h
+  exact h.2
+
+/-! ## descriptor → description (bridgedesc.ParseTarget / parseBinding) -/
+
+/-- Method content is copied exactly: canonical RPC name, message types, streaming kinds. -/
+theorem C05_method_exact (svc : Name) (m : DMethod) :
+    (parseMethod svc m).rpcName = [47] ++ svc ++ [47] ++ m.name ∧
+    (parseMethod svc m).input = m.input ∧ (parseMethod svc m).output = m.output ∧
+    (parseMethod svc m).clientStreaming = m.clientStreaming ∧
+    (parseMethod svc m).serverStreaming = m.serverStreaming :=
+  ⟨rfl, rfl, rfl, rfl, rfl⟩
+
+/-- Bindings: none without a google.api.http option; otherwise the primary rule first, then every
+    additional binding in order. -/
+theorem C05_bindings (svc : Name) (m : DMethod) :
+    (parseMethod svc m).bindings =
+      match m.http with
+      | none => []
+      | some h => (h.primary :: h.additional).map parseBinding := by
+  unfold parseMethod
+  cases m.http <;> simp
+
+/-- Each binding carries the HTTP method its pattern kind stands for (custom: the given verb), the
+    template, body and response_body unchanged. -/
+theorem C05_binding_exact (p k b r : Bytes) :
+    parseBinding ⟨.get p, b, r⟩ = ⟨[71, 69, 84], p, b, r⟩ ∧
+    parseBinding ⟨.put p, b, r⟩ = ⟨[80, 85, 84], p, b, r⟩ ∧
+    parseBinding ⟨.post p, b, r⟩ = ⟨[80, 79, 83, 84], p, b, r⟩ ∧
+    parseBinding ⟨.delete p, b, r⟩ = ⟨[68, 69, 76, 69, 84, 69], p, b, r⟩ ∧
+    parseBinding ⟨.patch p, b, r⟩ = ⟨[80, 65, 84, 67, 72], p, b, r⟩ ∧
+    parseBinding ⟨.custom k p, b, r⟩ = ⟨k, p, b, r⟩ :=
+  ⟨rfl, rfl, rfl, rfl, rfl, rfl⟩
+
+/-- A description's services are, name by name, what its own file registry defines (name-only when
+    the registry has no definition — the documented degraded mode of `ParseTarget`). -/
+theorem C05_parse_exact (reg : List DFile) (ns : List Name) :
+    parseTarget reg ns = ns.map (contractOf reg) :=
+  parseTarget_exact reg ns
+
+/-! ## never partial: what success means against ANY target, conformant or not -/
+
+/-- If the conversation succeeds — whatever the target answered, in whatever order — the file set
+    handed to the registry is closed under imports, has no duplicate name, consists only of files the
+    target sent, and the names are the filtered ListServices answer. -/
+theorem C05_never_partial (cfg : Cfg) (pol : Policy) (sched : Sched) (h : History) (ok : StreamOk)
+    (hno : cfg.onlyServices = false)
+    (he : runStream (dedupFiles []) cfg pol sched = (h, .ok ok)) :
+    Closed ok.files ∧ (fileNames ok.files).Nodup ∧
+    (∀ f ∈ ok.files, ∃ h' q fs, pol h' q = .files fs ∧ f ∈ fs) ∧
+    (∃ raw, pol [] .list = .listing raw ∧ ok.names = listServiceNames cfg raw) ∧
+    (∀ n ∈ ok.names, ∃ h' fs, pol h' (.symbol n) = .files fs ∧ ∀ f ∈ fs, f.name ∈ fileNames ok.files) := by
+  rcases runStream_safe cfg pol sched (fun f => ∃ h' q fs, pol h' q = .files fs ∧ f ∈ fs)
+      (fun h' q fs e f hf => ⟨h', q, fs, e, hf⟩) h ok hno he with ⟨raw, a, b, c, d, e, f⟩
+  exact ⟨c, d, e, ⟨raw, a, b⟩, f⟩
+
+/-- A delivered description (`Watcher.UpdateDesc`) is never partial: its registry is closed and
+    duplicate-free, was accepted by `protodesc.NewFiles`, and every service is exactly what that
+    registry defines.  An inconsistent or incomplete set therefore ends in an error report. -/
+theorem C05_update_never_partial (cfg : Cfg) (ep : Endpoint) (last last' : Option Snapshot)
+    (h : Option History) (t : Target) (hno : cfg.onlyServices = false)
+    (he : resolveWithMethod (dedupFiles []) cfg ep last = (h, last', .update t)) :
+    Closed t.files ∧ (fileNames t.files).Nodup ∧ newFiles t.files = .ok t.files ∧
+    (∀ f ∈ t.files, ∃ h' q fs, ep.pol h' q = .files fs ∧ f ∈ fs) ∧
+    (∃ raw, ep.pol [] .list = .listing raw ∧
+      t.services = (sortBy bytesLe (listServiceNames cfg raw)).map (contractOf t.files)) := by
+  unfold resolveWithMethod at he
+  cases hce : ep.connErr with
+  | some c => simp [hce] at he
+  | none =>
+    simp only [hce] at he
+    cases hr : runStream (dedupFiles []) cfg ep.pol ep.sched with
+    | mk h1 r =>
+      cases r with
+      | error e => simp [hr] at he
+      | ok ok =>
+        simp only [hr] at he
+        rcases C05_never_partial cfg ep.pol ep.sched h1 ok hno hr with ⟨hc, hn, hp, ⟨raw, hraw, hnames⟩, _⟩
+        unfold finish at he
+        by_cases hl : last = some (snapshotOf ok)
+        · simp [hl] at he
+        · simp only [hl, ↓reduceIte] at he
+          cases hnf : newFiles ok.files with
+          | error e => simp [hnf] at he
+          | ok reg =>
+            have hreg := newFiles_eq hnf
+            subst hreg
+            simp only [hnf, Prod.mk.injEq, Outcome.update.injEq] at he
+            rcases he with ⟨_, _, rfl⟩
+            refine ⟨hc, hn, hnf, hp, raw, hraw, ?_⟩
+            simp only [snapshotOf, hnames]
+            exact parseTarget_exact _ _
+
+/-- Against a target that only ever sends its own files, a delivered registry is a closed subset of
+    the target's files: a needed import the target does not have (missing dependency) can never end
+    in a description. -/
+theorem C05_missing_dependency_is_error (cfg : Cfg) (srv : Server) (pol : Policy) (sched : Sched)
+    (h : History) (ok : StreamOk) (hno : cfg.onlyServices = false) (hon : Honest srv pol)
+    (he : runStream (dedupFiles []) cfg pol sched = (h, .ok ok)) :
+    ∀ f ∈ ok.files, f ∈ srv.files ∧ ∀ d ∈ f.deps, d ∈ fileNames srv.files := by
+  rcases runStream_safe cfg pol sched (fun f => f ∈ srv.files) hon h ok hno he with ⟨_, _, _, hcl, _, hown, _⟩
+  intro f hf
+  refine ⟨hown f hf, fun d hd => ?_⟩
+  rcases mem_fileNames.1 (hcl f hf d hd) with ⟨g, hg, hgn⟩
+  exact mem_fileNames.2 ⟨g, hown g hg, hgn⟩
+
+/-! ## completeness: every conformant target is resolved, to exactly its contract -/
+
+/-- For EVERY conformant answering policy whose answers stay inside the import closure of the
+    requested file (full closures, only the file, closure minus already sent, partial closures,
+    re-sent files, duplicates, any order, any dependence on the history) and every schedule: if the
+    breadth-first import depth below the wanted services' files is within RecursionLimit, the
+    conversation succeeds and reproduces the target's contract (`Complete`): exactly the wanted
+    names, only the target's files, no duplicates, closed, accepted by the registry, every service
+    parsed to exactly the target's definition. -/
+theorem C05_complete_focused {cfg : Cfg} {srv : Server} {pol : Policy} {sched : Sched}
+    (hwf : WF cfg srv) (hc : Conformant srv pol) (hfoc : Focused srv pol) (hfair : FairSched sched)
+    (hno : cfg.onlyServices = false)
+    (hdepth : ∀ n, Reach srv.files (rootNames cfg srv) n → Within srv.files (rootNames cfg srv) cfg.limit n) :
+    ∃ h ok, runStream (dedupFiles []) cfg pol sched = (h, .ok ok) ∧ Complete cfg srv ok := by
+  rcases runStream_live_focused hwf hc hfoc hfair hno hdepth with ⟨h, ok, he⟩
+  exact ⟨h, ok, he, complete_of_ok hwf hc hno he⟩
+
+/-- For EVERY conformant policy at all (also ones that add unrelated files of the target to their
+    answers): a RecursionLimit of at least the number of the target's files suffices. -/
+theorem C05_complete_any {cfg : Cfg} {srv : Server} {pol : Policy} {sched : Sched}
+    (hwf : WF cfg srv) (hc : Conformant srv pol) (hfair : FairSched sched)
+    (hno : cfg.onlyServices = false) (hlim : srv.files.length ≤ cfg.limit) :
+    ∃ h ok, runStream (dedupFiles []) cfg pol sched = (h, .ok ok) ∧ Complete cfg srv ok := by
+  rcases runStream_live_any hwf hc hfair hno hlim with ⟨h, ok, he⟩
+  exact ⟨h, ok, he, complete_of_ok hwf hc hno he⟩
+
+/-- Success against a conformant target is always complete — there is no third outcome between
+    "error" and "the whole contract", whatever the limit. -/
+theorem C05_success_is_complete {cfg : Cfg} {srv : Server} {pol : Policy} {sched : Sched}
+    (hwf : WF cfg srv) (hc : Conformant srv pol) (hno : cfg.onlyServices = false)
+    {h : History} {ok : StreamOk} (he : runStream (dedupFiles []) cfg pol sched = (h, .ok ok)) :
+    Complete cfg srv ok :=
+  complete_of_ok hwf hc hno he
+
+/-- What the watcher receives for a complete conversation: the target's contract for exactly the
+    wanted services (sorted), or nothing when that is what it received last. -/
+theorem C05_delivered_contract {cfg : Cfg} {srv : Server} {ok : StreamOk} (hk : Complete cfg srv ok)
+    (last : Option Snapshot) :
+    (finish last ok = (last, .unchanged) ∧ last = some (snapshotOf ok)) ∨
+    finish last ok = (some (snapshotOf ok), .update
+      { services := (sortBy bytesLe (listServiceNames cfg srv.listed)).map (contractOf srv.files),
+        files := ok.files }) :=
+  finish_complete hk last
+
+/-! ## protocol versions -/
+
+/-- `methodPriority` always holds both versions: a swap never loses one. -/
+theorem C05_priority_keeps_versions (dedup : List DFile → List DFile) (cfg : Cfg) (env : Version → Endpoint)
+    (st : RState) (hp : st.priority = [.v1, .v1alpha] ∨ st.priority = [.v1alpha, .v1]) :
+    (resolve dedup cfg env st).1.priority = [.v1, .v1alpha] ∨
+    (resolve dedup cfg env st).1.priority = [.v1alpha, .v1] := by
+  rcases hp with hp | hp <;>
+  · unfold resolve
+    rw [hp]
+    unfold resolveFrom
+    rcases resolveWithMethod dedup cfg (env _) st.last with ⟨h1, l1, o1⟩
+    cases o1 with
+    | update t => simp [swapFront, hp]
+    | unchanged => simp [swapFront, hp]
+    | error e =>
+      simp only
+      split
+      · unfold resolveFrom
+        rcases resolveWithMethod dedup cfg (env _) st.last with ⟨h2, l2, o2⟩
+        cases o2 with
+        | update t => simp [swapFront, hp]
+        | unchanged => simp [swapFront, hp]
+        | error e2 =>
+          simp only
+          split
+          · unfold resolveFrom; simp [hp]
+          · simp [hp]
+      · simp [hp]
+
+/-- Version fallback never hides a working version: if version `v` yields an outcome that is not an
+    error and the other version answers Unimplemented (at connection, at the first response, or by an
+    ErrorResponse), the poll ends with `v`'s outcome — whichever version is first in `methodPriority`
+    — and `v` is tried first next time. -/
+theorem C05_version_fallback (dedup : List DFile → List DFile) (cfg : Cfg) (env : Version → Endpoint)
+    (st : RState) (v w : Version) (hvw : v ≠ w)
+    (hp : st.priority = [v, w] ∨ st.priority = [w, v])
+    (h : Option History) (last' : Option Snapshot) (out : Outcome)
+    (hv : resolveWithMethod dedup cfg (env v) st.last = (h, last', out)) (hout : ∀ e, out ≠ .error e)
+    (hw : ∃ hh ll e, resolveWithMethod dedup cfg (env w) st.last = (hh, ll, .error e) ∧ e.code = codeUnimplemented) :
+    (resolve dedup cfg env st).2.1 = out ∧ (resolve dedup cfg env st).1.last = last' ∧
+    (resolve dedup cfg env st).1.priority = [v, w] := by
+  rcases hw with ⟨hh, ll, e, hw, hcode⟩
+  rcases hp with hp | hp
+  · unfold resolve
+    rw [hp]
+    unfold resolveFrom
+    rw [hv]
+    cases out with
+    | update t => simp [swapFront, hp]
+    | unchanged => simp [swapFront, hp]
+    | error e' => exact absurd rfl (hout e')
+  · unfold resolve
+    rw [hp]
+    unfold resolveFrom
+    rw [hw]
+    simp only [hcode, ↓reduceIte]
+    unfold resolveFrom
+    rw [hv]
+    cases out with
+    | update t => simp [swapFront, hp]
+    | unchanged => simp [swapFront, hp]
+    | error e' => exact absurd rfl (hout e')
+
+/-- When every version answers Unimplemented the poll reports an error (never a description). -/
+theorem C05_all_unimplemented (dedup : List DFile → List DFile) (cfg : Cfg) (env : Version → Endpoint)
+    (st : RState) (hp : st.priority = [.v1, .v1alpha] ∨ st.priority = [.v1alpha, .v1])
+    (hall : ∀ v, ∃ hh ll e, resolveWithMethod dedup cfg (env v) st.last = (hh, ll, .error e) ∧ e.code = codeUnimplemented) :
+    (resolve dedup cfg env st).2.1 = .error ⟨codeUnimplemented⟩ ∧ (resolve dedup cfg env st).1 = st := by
+  rcases hall .v1 with ⟨h1, l1, e1, hv1, hc1⟩
+  rcases hall .v1alpha with ⟨h2, l2, e2, hv2, hc2⟩
+  rcases hp with hp | hp <;>
+  · unfold resolve
+    rw [hp]
+    unfold resolveFrom
+    simp only [hv1, hv2, hc1, hc2, ↓reduceIte]
+    unfold resolveFrom
+    simp only [hv1, hv2, hc1, hc2, ↓reduceIte]
+    unfold resolveFrom
+    simp
+
+/-! ## witnesses (kernel-checked by evaluation) -/
+
+
+open GB.C05.Witness in
+/-- D5, before the fix: with `processed` never filled, a target answering two services' requests
+    with closures that share an import makes the resolver hand the shared file to the registry twice,
+    and the poll ends in an error although the target is well-formed and conformant. -/
+theorem C05_unfixed_dedup_fails :
+    (resolveWithMethod (dedupFilesBuggy []) cfg (ep closurePol) none).2.2 = .error ⟨codeUnknown⟩ := by
+  decide
+
+open GB.C05.Witness in
+/-- … and after the fix the same conversation delivers both services with their exact content
+    (non-vacuity of `C05_complete_focused` / `C05_delivered_contract`). -/
+theorem C05_fixed_dedup_resolves :
+    (resolveWithMethod (dedupFiles []) cfg (ep closurePol) none).2.2 = .update
+      { services := [contractOf srv.files [97], contractOf srv.files [98]], files := [fa, fc, fb] } ∧
+    (resolveWithMethod (dedupFiles []) cfg (ep onlyPol) none).2.2 = .update
+      { services := [contractOf srv.files [97], contractOf srv.files [98]], files := [fa, fb, fc] } := by
+  decide
+
+open GB.C05.Witness in
+/-- Depth beyond the limit is an error, not a partial description: the only-the-file target needs one
+    round for "c"; with RecursionLimit 0 the poll fails. -/
+theorem C05_limit_exceeded_is_error :
+    (resolveWithMethod (dedupFiles []) cfg0 (ep onlyPol) none).2.2 = .error ⟨codeUnknown⟩ := by
+  decide
+
+open GB.C05.Witness in
+/-- Fallback on the witness: v1 unimplemented, v1alpha working ⇒ resolved through v1alpha, which
+    moves to the front. -/
+theorem C05_fallback_witness :
+    let env : Version → Endpoint := fun v => match v with | .v1 => unimpl | .v1alpha => ep closurePol
+    (resolve (dedupFiles []) cfg env initState).1.priority = [.v1alpha, .v1] ∧
+    (resolve (dedupFiles []) cfg env initState).2.1 = .update
+      { services := [contractOf srv.files [97], contractOf srv.files [98]], files := [fa, fc, fb] } := by
+  decide
+
+open GB.C05.Witness in
+/-- Non-vacuity of `C05_complete_focused`: the witness target and its closure-answering service satisfy
+    every hypothesis (well-formed, conformant, focused, fair schedule, depth 1 ≤ limit 1), so the
+    conclusion is reached through the theorem, not only by evaluation. -/
+theorem C05_complete_focused_nonvacuous :
+    WF cfg srv ∧ Conformant srv closurePol ∧ Focused srv closurePol ∧ FairSched idSched ∧
+    ∃ h ok, runStream (dedupFiles []) cfg closurePol idSched = (h, .ok ok) ∧ Complete cfg srv ok :=
+  ⟨wit_wf, wit_conformant, wit_focused, wit_fair,
+    C05_complete_focused wit_wf wit_conformant wit_focused wit_fair rfl wit_depth⟩
+
+open GB.C05.Witness in
+/-- `Focused` cannot be dropped from `C05_complete_focused` (DESIGN 5.5's single statement is false):
+    a well-formed target, a conformant service, a fair schedule and an import depth within the limit —
+    yet the resolution fails, because the service added an unrelated file of the target to an answer
+    and that file's import needs one more round.  (`C05_complete_any` covers such services with the
+    bound `#files ≤ RecursionLimit`.) -/
+theorem C05_unfocused_needs_more_rounds :
+    WF cfg0 drip ∧ Conformant drip dripPol ∧ FairSched idSched ∧
+    (∀ n, Reach drip.files (rootNames cfg0 drip) n → Within drip.files (rootNames cfg0 drip) cfg0.limit n) ∧
+    (runStream (dedupFiles []) cfg0 dripPol idSched).2.toOption.isNone = true :=
+  ⟨drip_wf, drip_conformant, wit_fair, drip_depth, by decide⟩
+
